@@ -325,6 +325,36 @@ def drive_shape(args):
                 if c:
                     cases.append(c)
             cases.extend(reshape_cases(p, p.to_dense(), rng))
+            # HISTORIES on one object: read it, change it in place, read it again -- the second read must see the change
+            if not boolmode and p.ndim >= 1:
+                reads = [('tolist', lambda t: torch.as_tensor(t.tolist(), dtype=t.dtype).reshape(tuple(t.size())) if t.numel() else t.to_dense(), lambda d: d),
+                         ('iter', lambda t: torch.stack([x.to_dense() for x in t]) if len(t) else t.to_dense(), lambda d: d),
+                         ('to_dense', lambda t: t.to_dense(), lambda d: d)]
+                for dim in range(p.ndim):
+                    reads.append((f'dim_to_dense{dim}', lambda t, dim=dim: t.dim_to_dense(dim).to_dense(), lambda d: d))
+                    reads.append((f'log_softmax{dim}', lambda t, dim=dim: t.log_softmax(dim).to_dense(), lambda d, dim=dim: d.log_softmax(dim)))
+                    reads.append((f'norm{dim}', lambda t, dim=dim: t.norm(2, dim).to_dense(), lambda d, dim=dim: d.norm(2, dim)))
+                inpl = [('neg_', lambda t: t.neg_(), lambda d: d.neg_()), ('abs_', lambda t: t.abs_(), lambda d: d.abs_()),
+                        ('relu_', lambda t: t.relu_(), lambda d: d.relu_()), ('log1p_', lambda t: t.log1p_(), lambda d: d.log1p_()),
+                        ('imul', lambda t: t.__imul__(3.0), lambda d: d.mul_(3.0)), ('itruediv', lambda t: t.__itruediv__(2.0), lambda d: d.div_(2.0)),
+                        ('nan_to_num_', lambda t: t.nan_to_num_(nan=7., posinf=8., neginf=-8.), lambda d: d.nan_to_num_(nan=7., posinf=8., neginf=-8.))]
+                for _h in range(4):
+                    (rn1, r1f, _), (inn, inf_, ind), (rn2, r2f, r2d) = rng.choice(reads), rng.choice(inpl), rng.choice(reads)
+
+                    def hist_pt(t, r1f=r1f, inf_=inf_, r2f=r2f):
+                        t = t.clone()
+                        r1f(t)
+                        inf_(t)
+                        return r2f(t)
+
+                    def hist_dense(d, ind=ind, r2d=r2d):
+                        ind(d)
+                        return r2d(d)
+                    c = op_case(f'{rn1};{inn};{rn2}', hist_pt, hist_dense, [p])
+                    if c:
+                        c['tag'] = ['history', inn]
+                        c['hasst'] = False
+                        cases.append(c)
         # project(paxes, vaxes): onto fresh random target patterns and onto patterns derived from the tensor itself
         for pi_, p in enumerate(pats):
             targets = []
